@@ -42,6 +42,9 @@ CHECKS = {
  'C13': ('Hypothesis RuleBasedStateMachine over sequences of estimate calls on one estimator: differential against a fresh estimator, snapshot comparison of earlier models, deep-copy comparison of caller inputs, certified-optimum check for warm start',
          'Stateful generated search: hundreds of call histories (varying measurement sets, totals, solvers, callbacks) per run; history-freeness is decided by exact comparison with a fresh estimator on every attribute subset, immutability by bit-identical snapshots, warm-start convergence by the C03 certificate.',
          'Fresh-vs-history tolerance 1e-9*total (runs are bit-identical on the pinned tree). Warm-start optimum clause runs on 1/6 of the warm histories, skipped when structural zeros are present (covered by C10).'),
+ 'C07': ('dense log-grid enumeration + Hypothesis random points; differential against an independent minimiser of the CKS20 bound and the exact Gaussian delta (Balle-Wang); metamorphic monotonicity and inverse relations',
+         'Every grid point (61x61 for cdp_delta, 16x16 for cdp_rho and cdp_eps; 161/41 thorough) is checked on every run for soundness, tightness, monotonicity against its neighbours and the inverse relations; random points and factor-shifted pairs are added by Hypothesis.',
+         'Trusts the reference optimiser (grid over alpha-1 in [1e-12,1e9] + golden section) and scipy log_ndtr. F13 (alpha floor 1.01) is a listed known finding; clamped results (eps=0) are checked to be the clamp value.'),
 }
 NOT_YET = 'check not built yet (work in progress in this session); see DESIGN.md for the planned check'
 
